@@ -435,6 +435,28 @@ def run():
             H.note_truncated('fixed point: content texts stopped by time budget')
             break
 
+    # 4b. long queries: the number of pairs must not matter (no pair limit, no merged tail)
+    for n_pairs in (1, 64, 255, 256, 257, 258, 300, 1000, 5000):
+        for sep_text in ('k%d=v%d', 'k%d=a%%26b%d', 'k%d'):
+            q = '&'.join((sep_text % ((i, i) if sep_text.count('%d') == 2 else (i,))) for i in range(n_pairs))
+            text = 'http://h/p?' + q
+            H.ev(key=('fp-long', n_pairs, sep_text), nontrivial=n_pairs > 1, sample=dict(url='%s... (%d pairs)' % (text[:40], n_pairs)),
+                 part='fixed_point_long_queries')
+            try:
+                u = URL(text)
+                got = len(list(u.query_params.iteritems(multi=True)))
+                t1 = u.to_text(full_quote=True)
+                ok = got == n_pairs and URL(t1).to_text(full_quote=True) == t1 and \
+                    all(k == 'k%d' % i for i, (k, v) in enumerate(u.query_params.iteritems(multi=True)))
+                detail = '%d pairs parsed, fixed point %r' % (got, URL(t1).to_text(full_quote=True) == t1)
+            except Exception as e:  # noqa
+                ok, detail = False, 'raises %s: %s' % (type(e).__name__, e)
+            if not ok:
+                H.fail('full_quote_fixed_point', 'URL() -> to_text -> URL() -> to_text', 'query with hundreds of pairs',
+                       '%s... (%d pairs of the form %s)' % (text[:40], n_pairs, sep_text), detail,
+                       HDR + 'q = "&".join("k%%d=v%%d" %% (i, i) for i in range(%d))\nu = URL("http://h/p?" + q)\n'
+                             'assert len(list(u.query_params.iteritems(multi=True))) == %d\n' % (n_pairs, n_pairs))
+
     # 5. totality
     prefixes = ('', '//', 'http://', 'http://[', 'http://u@', 'http://xn--', 'x:')
     texts = [p + s for s, _ in strings(4 if big else 3, TSYMS) for p in prefixes]
